@@ -12,6 +12,7 @@ from asyncio import (
     Future,
     Protocol,
     Queue,
+    Task,
     iscoroutinefunction,
     sleep,
     wait,
@@ -358,6 +359,7 @@ class ConnectionManager:
                 (connect_task, closing_task),
                 return_when=FIRST_COMPLETED,
             )
+            await self._cancel_tasks(connect_task, closing_task)
 
             if self._connection:
                 _, protocol = self._connection
@@ -367,10 +369,15 @@ class ConnectionManager:
                     (done_task, closing_task2),
                     return_when=FIRST_COMPLETED,
                 )
+                await self._cancel_tasks(closing_task2)
 
                 if not self._is_closing.is_set():
                     _LOGGER.warning("Connection lost")
                     self._update_connection_lost_circuit_breaker()
+                elif self._connection:
+                    # connection was established after close() was called
+                    transport, _ = self._connection
+                    transport.close()
 
                 self._connection = None
 
@@ -378,6 +385,14 @@ class ConnectionManager:
         self._is_closing.clear()
 
         _LOGGER.info("Connect loop done")
+
+    @staticmethod
+    async def _cancel_tasks(*tasks: Task) -> None:
+        """Cancel tasks that are still pending and wait for them to finish."""
+        for task in tasks:
+            if not task.done():
+                task.cancel()
+        await wait(tasks)
 
     def _update_connection_lost_circuit_breaker(self) -> None:
         now = datetime.datetime.utcnow()
